@@ -589,16 +589,16 @@ LEGACY_BASES = ["0.9.1", "0.9.2", "0.9.3", "0.9.4", "0.9.5", "0.9.6", "0.9.7", "
 def gen_legacy_openssl(rng):
     s = rng.choice(LEGACY_BASES)
     r = rng.random()
-    if r < 0.25:
+    if r < 0.2:
         return s
-    if r < 0.7:
+    if r < 0.6:
         return s + rng.choice("abcdefghijklmnopqrstuvwxyz")
-    if r < 0.8:
+    if r < 0.68:
         return s + rng.choice("abz") + rng.choice("abz")
-    if r < 0.86:
+    if r < 0.74:
         # all-digit third segment: `1.0.10`, and `1.0.05` (value (1,0,5,''), prints `1.0.5`)
         return s + rng.choice(["0", "1", "5", "05", "10"])
-    if r < 0.9:
+    if r < 0.78:
         # digit right after the fix number followed by letters: rejected (`patch[0].isdigit()`)
         return s + rng.choice(["0a", "2b", "1-beta1"])
     return s + rng.choice(["-beta1", "-beta2", "-beta3", "-alpha1", "-pre1", "-beta10", "-dev",
